@@ -29,7 +29,7 @@ def check_design(ctx, prop, devs):
 
 def export(ctx, limit=None):
     cfg = "MC_Session_export.cfg" if ctx.quick else "MC_Session_export_thorough.cfg"
-    r = tlc.check("Session.tla", cfg, timeout=1500)
+    r = tlc.check("Session.tla", cfg, timeout=1500, workers=1)      # one worker: the exported histories are reproducible
     if not r["ok"]:
         raise core.Infra("export run rejected: %s" % r["violated"])
     hists = tlc.leaves(r["out"])
